@@ -131,13 +131,24 @@ pub fn run_c15(cfg: &RunCfg, trace: bool) -> RunOut {
                 }
                 _ => {}
             }
-            if let Some((k, d)) = pair_verdict(&rs, &r1, "", true) {
+            // a walk whose entries change in its middle: which entries were already visited depends
+            // on the (valid, unspecified) traversal order, so only panics, termination and
+            // success/failure are compared
+            let mid_walk = matches!(op, Op::WalkAfter { after, .. } if *after > 0);
+            if mid_walk {
+                let bad = [&rs, &r1, &r2].iter().any(|r| r.is_panic()) || rs.is_ok() != r1.is_ok() || r1.is_ok() != r2.is_ok();
+                if bad {
+                    fail!("mid-walk-mutation", format!("walk with entries changing in its middle: sync {} vs async {} / {}", short(&rs), short(&r1), short(&r2)));
+                }
+            } else if let Some((k, d)) = pair_verdict(&rs, &r1, "", true) {
                 if after_zero {
                     fail!(format!("after-zero-length-read|sync-vs-async:{}", k), format!("sync vs async (directly after a zero-length read on this handle): {}", d));
                 }
                 fail!(format!("sync-vs-async:{}", k), format!("sync vs async: {}", d));
             }
-            if let Some((k, d)) = pair_verdict(&r1, &r2, "", true) {
+            if mid_walk {
+                // compared above
+            } else if let Some((k, d)) = pair_verdict(&r1, &r2, "", true) {
                 fail!(format!("poll-schedule-dependent:{}", k), format!("two poll schedules ({} vs {} pendings) give different results: {}", inj1, inj2, d));
             }
             if rs.is_panic() {
